@@ -142,7 +142,9 @@ TKeff == /\ Rec.ev = "keff"
          /\ den' = den
 
 (* clauses decided numerically by the harness (mode N), e.g. dense = sparse form for operators of tiny / huge magnitude *)
-TFlag == /\ Rec.ev = "flag" /\ Rec.ok /\ den' = den
+(* a flag whose record says `foreign` states a clause of another property (C19: arguments unchanged): strict-only here *)
+IsForeign == "foreign" \in DOMAIN Rec /\ Rec.foreign
+TFlag == /\ Rec.ev = "flag" /\ (Rec.ok \/ (~Strict /\ IsForeign)) /\ den' = den
 
 TAny == TFlag \/ TPoke \/ TNewMps \/ TNewMpo \/ TAddMps \/ TAddMpo \/ TMul \/ TApply \/ TIdentity \/ TDenseVec \/ TDenseMat
         \/ TVdot \/ TAvg \/ TOda \/ TBlocks \/ TStepLR \/ TStep2 \/ THeff \/ THeff2 \/ TKeff
@@ -164,7 +166,7 @@ Diagnose ==
     ELSE IF Rec.ev \in {"step_left", "step_right", "cstep_left", "cstep_right"} THEN "transfer contraction step differs from the index sum"
     ELSE IF Rec.ev = "heff" THEN "apply_local_hamiltonian: index sum / projection identity / Hermiticity"
     ELSE IF Rec.ev = "heff2" THEN "two-site local Hamiltonian: merged tensors or index sum differ"
-    ELSE IF Rec.ev = "flag" THEN Rec.what
+    ELSE IF Rec.ev = "flag" THEN (IF IsForeign THEN "spec: (clause of another property) " ELSE "") \o Rec.what
     ELSE IF Rec.ev = "keff" THEN "apply_local_bond_contraction differs from the index sum"
     ELSE "unexpected event"
 TReject == /\ HasRec /\ ~ENABLED TStep
